@@ -29,10 +29,14 @@ ReturnsTree(ep) == ep \notin {"gosqlx.Validate", "gosqlx.ValidateMultiple", "par
 Pads == {"none", "blank", "comment", "control"}
 Inputs == [size : {"ok", "tooLarge"}, lex : {"ok", "lexError", "tooManyTokens"},
            segs : UNION {[1..n -> BOOLEAN] : n \in 1..MaxSegs},     \* TRUE = well-formed segment
-           pad : Pads, padAt : {"lead", "trail", "both"}]
+           pad : Pads, padAt : {"lead", "trail", "both"},
+           \* sep "none": well-formed statements follow each other WITHOUT a semicolon - a statement ends where the
+           \* keyword of the next one begins, in the strict loop and in the recovery loop alike
+           sep : {"semicolon", "none"}]
 WellShaped(i) == /\ (i.size = "tooLarge" => i.lex = "ok" /\ Len(i.segs) = 1) /\ (i.lex # "ok" => Len(i.segs) = 1)
                  /\ (i.pad # "none" => i.size = "ok" /\ i.lex = "ok" /\ Len(i.segs) <= 2)
                  /\ (i.pad = "none" => i.padAt = "lead")
+                 /\ (i.sep = "none" => i.size = "ok" /\ i.lex = "ok" /\ i.pad = "none" /\ Len(i.segs) >= 2 /\ \A k \in DOMAIN i.segs : i.segs[k])
 LexOf(i) == IF i.pad = "control" THEN "lexError" ELSE i.lex
 
 VARIABLES in, ep, stage, res
@@ -61,7 +65,7 @@ Loop == /\ stage = "loop"
         /\ stage' = "returned" /\ UNCHANGED <<in, ep>>
 \* one printed case per input (the driver crosses it with every entry point)
 Out == (Emit /\ stage' = "returned" /\ ep = "gosqlx.Parse") =>
-          PrintT(ToJson([size |-> in.size, lex |-> in.lex, segs |-> in.segs, pad |-> in.pad, padAt |-> in.padAt, res |-> res']))
+          PrintT(ToJson([size |-> in.size, lex |-> in.lex, segs |-> in.segs, pad |-> in.pad, padAt |-> in.padAt, sep |-> in.sep, res |-> res']))
 
 Next == (CheckSize \/ Lex \/ Convert \/ Loop) /\ Out
 Spec == Init /\ [][Next]_vars /\ WF_vars(Next)
